@@ -657,16 +657,19 @@ def gen_project(rng):
         top = "p%d" % ci
         files = {}
         for _ in range(rng.randint(1, 3)):
-            ftl = rng.random() < 0.4
-            rel = top + "/" + rng.choice(dirs) + "/" + rng.choice(["a", "b", "c"]) + \
-                (".ftl" if ftl else ".properties")
+            kind = rng.choices(["properties", "ftl", "po"], [4, 4, 3])[0]
+            ftl, po = kind == "ftl", kind == "po"
+            rel = top + "/" + rng.choice(dirs) + "/" + rng.choice(["a", "b", "c"]) + "." + kind
             if rel in used:
                 continue
             used.add(rel)
             keys = ["k%d" % i for i in range(1, rng.randint(2, 6))]
             # words, has %S (properties), attributes (Fluent)
-            ref = {k: (rng.randint(1, 3), (not ftl) and rng.random() < 0.3,
+            ref = {k: (rng.randint(1, 3), kind == "properties" and rng.random() < 0.3,
                        rng.sample(FTL_ATTRS, rng.randint(0, 3)) if ftl else []) for k in keys}
+            # .po: the key is the tuple (msgid, msgctxt)
+            ctx = {k: ("ctx%d" % n if po and rng.random() < 0.5 else None)
+                   for n, k in enumerate(keys + ["o0", "o1"])}
             per_locale = {}
             for loc in locales:
                 r = rng.random()
@@ -684,16 +687,16 @@ def gen_project(rng):
                         n = rng.randint(1, len(ref[k][2])) if ref[k][2] else 0
                         ent[k] = "noattr%d" % n if n else "changed"
                 per_locale[loc] = {"ent": ent, "obsolete": ["o%d" % i for i in range(rng.randint(0, 2))],
-                                   "junk": int((not ftl) and rng.random() < 0.3),
-                                   "dup": (not ftl) and rng.random() < 0.2}
-            files[rel] = {"ref": ref, "l10n": per_locale}
+                                   "junk": int(kind == "properties" and rng.random() < 0.3),
+                                   "dup": kind == "properties" and rng.random() < 0.2}
+            files[rel] = {"ref": ref, "l10n": per_locale, "kind": kind, "ctx": ctx}
         obsolete_files = {}
         for loc in locales:
             if rng.random() < 0.25:
                 obsolete_files[loc] = top + "/" + rng.choice(dirs) + "/gone.properties"
         filters = []
         for rel, fd in files.items():
-            if rng.random() < 0.35:
+            if rng.random() < 0.35 and fd["kind"] != "po":
                 filters.append({"rel": rel, "key": rng.choice(sorted(fd["ref"])),
                                 "action": rng.choice(["ignore", "warning"])})
             if rng.random() < 0.15:
@@ -709,9 +712,25 @@ def value(words, fmt, changed):
     return " ".join(ws + (["%S"] if fmt else []))
 
 
-def entry(k, w, fmt, attrs, changed):
-    """one entity in file syntax (.properties line, or Fluent message with attributes)"""
+def entry(k, w, fmt, attrs, changed, fd=None, same=False):
+    """one entity in file syntax (.properties line, Fluent message with
+    attributes, or gettext message)"""
+    if fd is not None and fd.get("kind") == "po":
+        ctx = fd["ctx"].get(k)
+        return ('msgctxt "%s"\n' % ctx if ctx else "") + 'msgid "%s"\nmsgstr "%s"\n\n' % (
+            po_msgid(k, w), value(w, False, True) if changed else "")
     return "%s = %s\n" % (k, value(w, fmt, changed)) + "".join("    .%s = Attr\n" % a for a in attrs)
+
+
+def po_msgid(k, w):
+    return k + " " + value(w, False, False)
+
+
+def entity_key(fd, k, w=0):
+    """the key as notify sees it (and as JSON shows it)"""
+    if fd.get("kind") == "po":
+        return [po_msgid(k, w) if k in fd["ref"] else k + " Obsolete", fd["ctx"].get(k)]
+    return k
 
 
 def lost_attrs(how):
@@ -744,7 +763,7 @@ def write_project(root, proj):
             os.makedirs(os.path.dirname(rp), exist_ok=True)
             with open(rp, "w") as f:
                 for k, (w, fmt, attrs) in fd["ref"].items():
-                    f.write(entry(k, w, fmt, attrs, False))
+                    f.write(entry(k, w, fmt, attrs, False, fd))
             for loc, st in fd["l10n"].items():
                 if st is None:
                     continue
@@ -754,13 +773,13 @@ def write_project(root, proj):
                     for k, how in st["ent"].items():
                         w, fmt, attrs = fd["ref"][k]
                         if how == "same":
-                            f.write(entry(k, w, fmt, attrs, False))
+                            f.write(entry(k, w, fmt, attrs, False, fd))
                         elif how == "changed":
-                            f.write(entry(k, w, fmt, attrs, True))
+                            f.write(entry(k, w, fmt, attrs, True, fd))
                         elif how == "nofmt":
-                            f.write(entry(k, w, False, attrs, True))
+                            f.write(entry(k, w, False, attrs, True, fd))
                         elif lost_attrs(how):
-                            f.write(entry(k, w, fmt, attrs[lost_attrs(how):], True))
+                            f.write(entry(k, w, fmt, attrs[lost_attrs(how):], True, fd))
                     for j in range(st["junk"]):
                         f.write("junk line %d\n" % j)
                     for k in dup_key(st):
@@ -768,7 +787,12 @@ def write_project(root, proj):
                         f.write("%s = %s\n" % (k, value(w, fmt and st["ent"][k] != "nofmt",
                                                          st["ent"][k] != "same")))
                     for o in st["obsolete"]:
-                        f.write("%s = Obsolete\n" % o)
+                        if fd.get("kind") == "po":
+                            c = fd["ctx"].get(o)
+                            f.write(('msgctxt "%s"\n' % c if c else "") +
+                                    'msgid "%s Obsolete"\nmsgstr "Alt"\n\n' % o)
+                        else:
+                            f.write("%s = Obsolete\n" % o)
         for loc, rel in cfg["obsolete_files"].items():
             lp = os.path.join(root, "l10n", loc, rel)
             os.makedirs(os.path.dirname(lp), exist_ok=True)
@@ -802,18 +826,18 @@ def expected_cli(proj, q):
                         continue
                     detail(loc, rel, {"missingFile": "error"}, "missingFile")
                     bump(loc, "missing", len(fd["ref"]))
-                    bump(loc, "missing_w", sum(w + (1 if fmt else 0) + len(attrs)
+                    bump(loc, "missing_w", sum(w + (1 if fmt else 0) + len(attrs) + (fd.get("kind") == "po")
                                                for w, fmt, attrs in fd["ref"].values()))
                     continue
                 bump(loc, "keys", 0)
                 for k, how in st["ent"].items():
                     w, fmt, attrs = fd["ref"][k]
-                    words = w + (1 if fmt else 0) + len(attrs)
+                    words = w + (1 if fmt else 0) + len(attrs) + (fd.get("kind") == "po")
                     if how == "missing":
                         act = key_action.get(k, "error")
                         if act == "ignore":
                             continue
-                        detail(loc, rel, {"missingEntity": k}, "missingEntity")
+                        detail(loc, rel, {"missingEntity": entity_key(fd, k, w)}, "missingEntity")
                         if act == "error":
                             bump(loc, "missing")
                             bump(loc, "missing_w", words)
@@ -833,7 +857,7 @@ def expected_cli(proj, q):
                             detail(loc, rel, "error", "error")
                 for o in st["obsolete"]:
                     bump(loc, "obsolete")
-                    detail(loc, rel, {"obsoleteEntity": o}, "obsoleteEntity")
+                    detail(loc, rel, {"obsoleteEntity": entity_key(fd, o)}, "obsoleteEntity")
                 for j in range(st["junk"] + len(dup_key(st))):
                     bump(loc, "errors")
                     detail(loc, rel, "error", "error")
@@ -908,6 +932,8 @@ def cli_model_case(rec, quiet):
     def dw(v):
         if v is None:
             return []
+        if isinstance(v, (list, tuple)):          # a .po key (msgid, msgctxt)
+            return [1, strs.setdefault(tuple(v), len(strs))]
         return [0, strs.setdefault(v, len(strs))]
     files = []
     for i, f in enumerate(rec.files):
@@ -934,7 +960,11 @@ def cli_canon_observer(case, strs, o):
     def item(it):
         ((cat, payload),) = it.items()
         i = CATS.index(cat)
-        return [i, VERDICT[payload] if i < 2 else ([] if payload is None else [0, strs[payload]])]
+        if i < 2:
+            return [i, VERDICT[payload]]
+        if payload is None:
+            return [i, []]
+        return [i, [1, strs[tuple(payload)]] if isinstance(payload, (list, tuple)) else [0, strs[payload]]]
     js = o.toJSON()
     return [canon_summary(case, js["summary"]), canon_json(case, js["details"], item), int(bool(o.error))]
 
@@ -949,19 +979,144 @@ def cli_locales(proj, mode, rng=None):
     return list(proj["locales"])
 
 
-def cli_direct(tomls, root, proj, quiet, merge, locales):
-    """compareProjects called directly on the parsed configs -> (ObserverList, JSON)"""
+def module_configs(root, proj, base):
+    """the same projects built programmatically with path entries that carry
+    `module` (what legacy l10n.ini projects produce): ProjectConfig.add_paths"""
+    from compare_locales.paths import ProjectConfig
+    configs = []
+    for cfg in proj["configs"]:
+        # (configs are told apart by their path)
+        pc = ProjectConfig(os.path.join(root, "programmatic-%s.toml" % cfg["top"]))
+        pc.set_root(".")
+        pc.add_environment(l10n_base=base)
+        pc.set_locales(list(proj["locales"]))
+        pc.add_paths({"reference": "en/%s/**" % cfg["top"],
+                      "l10n": "{l10n_base}/{locale}/%s/**" % cfg["top"],
+                      "module": cfg["top"]})
+        for flt in cfg["filters"]:
+            rule = {"path": "{l10n_base}/{locale}/%s" % flt["rel"], "action": flt["action"]}
+            if flt["key"]:
+                rule["key"] = flt["key"]
+            pc.add_rules(rule)
+        configs.append(pc)
+    return configs
+
+
+def cli_direct(tomls, root, proj, quiet, merge, locales, module=False):
+    """compareProjects called directly on the parsed (or programmatically built)
+    configs -> (ObserverList | failure text, JSON, text output)"""
     from compare_locales.compare import compareProjects
     from compare_locales.paths import TOMLParser
     from compare_locales import mozpath
     stage = os.path.join(root, "stage")
     shutil.rmtree(stage, ignore_errors=True)
     base = mozpath.abspath(os.path.join(root, "l10n"))
-    configs = [TOMLParser().parse(p, env={"l10n_base": base}) for p in tomls]
-    with contextlib.redirect_stdout(io.StringIO()):
-        ol = compareProjects(configs, locales, base, quiet=quiet, merge_stage=stage if merge else None)
-    shutil.rmtree(stage, ignore_errors=True)
-    return ol, json.loads(json.dumps([o.toJSON() for o in ol], sort_keys=True))
+    try:
+        if module:
+            configs = module_configs(root, proj, base)
+        else:
+            configs = [TOMLParser().parse(p, env={"l10n_base": base}) for p in tomls]
+        with contextlib.redirect_stdout(io.StringIO()):
+            ol = compareProjects(configs, locales, base, quiet=quiet, merge_stage=stage if merge else None)
+        data = json.loads(json.dumps([o.toJSON() for o in ol], sort_keys=True))
+        details = ol.serializeDetails()
+        text = (details + "\n" if details else "") + cli_between(details, tomls) + ol.serializeSummaries() + "\n"
+    except Exception as e:  # noqa: a failing input, not a harness error
+        return "%s(%s)" % (type(e).__name__, e), [], ""
+    finally:
+        shutil.rmtree(stage, ignore_errors=True)
+    return ol, data, text
+
+
+def cli_between(details, tomls):
+    """what CompareLocales.handle prints between details and summaries"""
+    if len(tomls) <= 1:
+        return ""
+    return ("\n" if details else "") + "Summaries for\n" + "".join("  " + p + "\n" for p in tomls) + \
+        "    and the union of these, counting each string once\n"
+
+
+def expected_summary_text(exp):
+    """serializeSummaries with the counts known by construction: per locale one
+    column per project, plus the union when there are several"""
+    keys = ("errors", "warnings", "missing", "missing_w", "obsolete", "changed", "changed_w",
+            "unchanged", "unchanged_w", "keys")
+    locales = sorted({loc for s, _ in exp for loc in s})
+    out = []
+    for loc in locales:
+        cols = [s.get(loc, {}) for s, _ in exp]
+        if len(exp) > 1:
+            cols.append({k: sum(s.get(loc, {}).get(k, 0) for s, _ in exp) for k in SUMMARY_KEYS})
+        out.append(loc + ":")
+        for k in keys:
+            cells = "".join(" %6s" % (c.get(k) or "") for c in cols)
+            if cells.strip():
+                out.append("%-12s" % k + cells)
+        last = cols[-1]
+        total = sum(last.get(k, 0) for k in ("changed", "unchanged", "report", "missing"))
+        out.append("%d%% of entries changed" % (last.get("changed", 0) * 100 // total if total else 0))
+    return "\n".join(out)
+
+
+def render_item(item):
+    """the text line of a detail (messages by kind only)"""
+    if item in ("error", "warning"):
+        return item.upper()
+    ((cat, payload),) = item.items()
+    if cat == "missingFile":
+        return "// add and localize this file"
+    if cat == "obsoleteFile":
+        return "// remove this file"
+    text = payload if isinstance(payload, str) else " / ".join(x for x in payload if x is not None)
+    return ("+" if cat == "missingEntity" else "-") + text
+
+
+def parse_details_text(text):
+    """the indented tree -> {file path: [item lines]}; an item sits two levels
+    below the key it belongs to, a child key one level"""
+    out, stack = {}, []
+    lines = []
+    for line in text.split("\n"):
+        if line.startswith('" from line') and lines:      # junk message spanning a newline
+            lines[-1] += "\\n" + line
+        else:
+            lines.append(line)
+    for line in lines:
+        n = 0
+        while line.startswith("  "):
+            n, line = n + 1, line[2:]
+        if stack and n == stack[-1][0] + 2:
+            for mark in ("ERROR", "WARNING"):
+                if line.startswith(mark + ": "):
+                    line = mark
+            out.setdefault("/".join(k for _, k in stack), []).append(line)
+        else:
+            while stack and stack[-1][0] >= n:
+                stack.pop()
+            stack.append((n, line))
+    return out
+
+
+def cli_text_oracle(chk, proj, quiet, mode, text, tomls):
+    """the TEXT output: every displayed event once under its file with its key
+    text, then the summary rows with the by-construction counts and percentages"""
+    exp = expected_cli(proj, quiet)
+    pub = {"project": proj, "quiet": quiet, "merge": False, "locales": mode}
+    summ = expected_summary_text(exp) + "\n"
+    has_details = any(d for _, d in exp)
+    tail = cli_between("x" if has_details else "", tomls) + summ
+    if not text.endswith(tail):
+        _fail(chk, "text-summary", pub, {"printed": text[-1500:], "expected_tail": tail})
+        return
+    head = text[:len(text) - len(tail)]
+    want = {}
+    for _, details in exp:
+        for path, items in details.items():
+            want.setdefault(path, []).extend(render_item(it) for it in items)
+    got = parse_details_text(head[:-1]) if head else {}
+    if {k: sorted(v) for k, v in got.items()} != {k: sorted(v) for k, v in want.items()}:
+        _fail(chk, "text-details", pub, {"printed": head[-1500:], "parsed": got, "expected": want})
+
 
 
 def cli_run(commands, real_compare, tomls, root, proj, quiet, merge, locales=None):
@@ -971,7 +1126,8 @@ def cli_run(commands, real_compare, tomls, root, proj, quiet, merge, locales=Non
     stage = os.path.join(root, "stage")
     shutil.rmtree(stage, ignore_errors=True)
     rec = Recorder()
-    with recording(rec), contextlib.redirect_stdout(io.StringIO()):
+    buf = io.StringIO()
+    with recording(rec), contextlib.redirect_stdout(buf):
         def wrapped(*a, **kw):
             rec.list = real_compare(*a, **kw)
             return rec.list
@@ -984,10 +1140,14 @@ def cli_run(commands, real_compare, tomls, root, proj, quiet, merge, locales=Non
                 return_zero=proj["return_zero"])
         except SystemExit as e:        # parser.exit(2) after "FAIL: <OSError>"
             rv = "SystemExit(%s)" % e.code
+        except Exception as e:  # noqa: the command must not die on a generated project
+            rv = "%s(%s)" % (type(e).__name__, e)
         finally:
             commands.compareProjects = real_compare
     data = json.load(open(out_json)) if os.path.exists(out_json) and not isinstance(rv, str) else []
     rec.staged = sum(len(fs) for _, _, fs in os.walk(stage))
+    rec.text = buf.getvalue()
+    rec.tomls = list(tomls)
     shutil.rmtree(stage, ignore_errors=True)
     if os.path.exists(out_json):
         os.remove(out_json)
@@ -1059,8 +1219,15 @@ def cli_replay_project(chk, proj, quiet, mode="plain"):
         tomls = write_project(root, proj)
         runs = {}
         locales = cli_locales(proj, mode)
-        dol, ddata = cli_direct(tomls, root, proj, quiet, False, locales)
-        cli_oracle(chk, proj, quiet, False, None, ddata, dol, mode + "/compareProjects")
+        for module in (False, True):
+            how = mode + ("/compareProjects+module" if module else "/compareProjects")
+            dol, dd, dtext = cli_direct(tomls, root, proj, quiet, False, locales, module)
+            if isinstance(dol, str):
+                _fail(chk, "cli-run-aborted", {"project": proj, "quiet": quiet, "merge": False, "locales": how},
+                      {"raised": dol})
+                continue
+            cli_oracle(chk, proj, quiet, False, None, dd, dol, how)
+            cli_text_oracle(chk, proj, quiet, how, dtext, tomls)
         for merge in (False, True):
             rv, data, rec = cli_run(commands, real_compare, tomls, root, proj, quiet, merge, locales)
             ol = rec.list
@@ -1069,6 +1236,8 @@ def cli_replay_project(chk, proj, quiet, mode="plain"):
                 return 1
             runs[merge] = (rv, data, bool(ol.error), {l: dict(c) for l, c in ol.summary.items()})
             cli_oracle(chk, proj, quiet, merge, rv, data, ol, mode)
+            if not merge:
+                cli_text_oracle(chk, proj, quiet, mode, rec.text, tomls)
         cli_compare_merge(chk, proj, quiet, runs)
     finally:
         commands.compareProjects = real_compare
@@ -1101,13 +1270,24 @@ def run_cli(chk, model):
                 locales = cli_locales(proj, mode)
                 chk.hist("cli_locale_args", mode + ("/2 configs" if len(tomls) > 1 else ""))
                 # compareProjects called directly: the same expectations, the same JSON as handle
-                dol, ddata = cli_direct(tomls, root, proj, quiet, False, locales)
-                chk.count(("cli-direct", json.dumps(proj, sort_keys=True), quiet, mode))
-                cli_oracle(chk, proj, quiet, False, None, ddata, dol, mode + "/compareProjects")
+                ddata = None
+                for module in (False, True):
+                    how = mode + ("/compareProjects+module" if module else "/compareProjects")
+                    dol, dd, dtext = cli_direct(tomls, root, proj, quiet, False, locales, module)
+                    chk.count(("cli-direct", json.dumps(proj, sort_keys=True), quiet, mode, module))
+                    chk.hist("cli_direct", "module" if module else "toml")
+                    if isinstance(dol, str):
+                        _fail(chk, "cli-run-aborted",
+                              {"project": proj, "quiet": quiet, "merge": False, "locales": how}, {"raised": dol})
+                        continue
+                    cli_oracle(chk, proj, quiet, False, None, dd, dol, how)
+                    cli_text_oracle(chk, proj, quiet, how, dtext, tomls)
+                    if not module:
+                        ddata = dd
                 for merge in (False, True):
                     rv, data, rec = cli_run(commands, real_compare, tomls, root, proj, quiet, merge, locales)
                     ol = rec.list
-                    if not merge and not isinstance(rv, str) and data != ddata:
+                    if not merge and not isinstance(rv, str) and ddata is not None and data != ddata:
                         _fail(chk, "cli-direct-differs",
                               {"project": proj, "quiet": quiet, "merge": False, "locales": mode},
                               {"handle": data, "compareProjects": ddata})
@@ -1124,6 +1304,8 @@ def run_cli(chk, model):
                     chk.hist("cli_quiet", quiet)
                     chk.hist("cli_merge", merge)
                     cli_oracle(chk, proj, quiet, merge, rv, data, ol, mode)
+                    if not merge:
+                        cli_text_oracle(chk, proj, quiet, mode, rec.text, tomls)
                     # ---- model on the recorded stream ----------------------
                     case, strs, wire = cli_model_case(rec, quiet)
                     cases.append({"project": proj, "quiet": quiet, "merge": merge, "locales": mode})
